@@ -8,6 +8,23 @@ backends and compared with the exact model distribution (same 1e-9 truncation) a
 property's clauses evaluated on the implementation: non-negative, normalised up to the truncation,
 no pattern with more photons than injected, each pattern = sum over loss configurations of
 |amplitude|^2 computed independently from the implementation's U_full, backends agree.
+
+Two streams:
+  1. fresh objects: one Sampler per (circuit, input, backend), backend given as a string;
+  2. scenarios (run first; a directed corpus that is the same on every seed, then randomised ones):
+     a. components SHARED between consumers - one Backend object (and one Source, one Detector) handed to two or
+        three Samplers on RELATED circuits of equal dimensions: a lossy circuit and lw.Unitary(its U_full) with the
+        same photons on the same columns, the same calls with other herald photon numbers / a herald on another
+        mode / other values, the same calls again, the same circuit object - in both orders, with the backend
+        given as an object and as a string, and the first Sampler read again afterwards;
+     b. short histories on one living Sampler: circuit extended in place (heralded gate added - input_modes
+        unchanged -, top-level herald added, loss element, ordinary components), circuit re-assigned to a related
+        one, input re-assigned, backend switched permanent <-> slos and back (string, Backend object, in-place
+        assignment of Backend.backend on a shared or on the Sampler's own object), source / detector
+        re-assigned, sampling calls (with a shared PostSelection object) between the reads;
+     c. several living Samplers sharing components, reconfigured and read in interleaved order.
+     Every read is judged by the property's clauses, by a fresh Sampler with the same settings, and by the exact
+     model run on the construction program that describes the circuit object at that moment.
 """
 
 from __future__ import annotations
@@ -29,7 +46,8 @@ TRUSTED = [
     "thewalrus.perm (permanent); float sqrt/abs/multiplication up to rounding",
     "the model is exact, the code rounds: entries within 1e-12 of the 1e-9 truncation threshold are compared leniently",
 ]
-ASSUMPTIONS = ["<= 5 user modes per level, total modes (with loss) <= 10, <= 5 photons incl. heralds"]
+ASSUMPTIONS = ["<= 5 user modes per level, total modes (with loss) <= 10, <= 5 photons incl. heralds",
+               "scenarios: <= 4 Samplers alive, <= 4 related circuits, <= 16 steps"]
 EPS = Fraction(1, 10**9)
 
 
@@ -88,7 +106,74 @@ def ref_dist(c, full_in: list[int]) -> dict:
     return out
 
 
+def nbasis_of(c, injected: int) -> int:
+    return max(1, len(list(fg.fock_all(np.array(c.U_full).shape[0], injected))))
+
+
+def oracle_problems(b: str, d: dict, c, user_input: list[int], eps: Fraction, relax: float = 0.0) -> list[str]:
+    """the property's clauses evaluated on one distribution `d` ({pattern tuple: probability}) that the
+    implementation returned for circuit `c` and input `user_input` (heralds not included) with backend `b`;
+    `relax` is a relative slack (only used after a sampling call that may renormalise the stored values)"""
+    probs: list[str] = []
+    full_in = fg.add_heralds(user_input, c.heralds["input"])
+    injected = sum(full_in)
+    ref = ref_dist(c, full_in)
+    nbasis = nbasis_of(c, injected)
+    tot = sum(d.values())
+    if any(p < 0 for p in d.values()):
+        probs.append(f"oracle[{b}]: negative probability")
+    if not (1 - nbasis * float(eps) - 1e-9 <= tot <= 1 + 1e-9):
+        probs.append(f"oracle[{b}]: distribution sums to {tot!r} (truncation allows a deficit of at most {nbasis}*1e-9)")
+    for s, p in d.items():
+        if sum(s) > injected and p > 1e-12:
+            probs.append(f"oracle[{b}]: pattern {s} holds more photons than the {injected} injected")
+        if len(s) != c.n_modes:
+            probs.append(f"oracle[{b}]: pattern {s} is not on the circuit's {c.n_modes} modes")
+    for s in set(d) | set(ref):
+        pi, pr = d.get(s, 0.0), ref.get(s, 0.0)
+        tol = (1e-9 + (nbasis * float(eps) if sum(s) == 0 else 0) + (float(eps) * 1.001 * nbasis if pi == 0 else 0)
+               + relax * max(pi, pr))
+        if abs(pi - pr) > tol:
+            probs.append(f"oracle[{b}]: P{list(s)} = {pi:.9g} but the sum over loss configurations of |amplitude|^2 is {pr:.9g}")
+            break
+    return probs
+
+
+_MODEL_CACHE: dict = {}
+
+
+def model_dist(ctx: Ctx, prog: list, user_input: list[int], b: str, eps: Fraction):
+    key = json.dumps([prog, user_input, b, str(eps)])
+    if key not in _MODEL_CACHE:
+        if len(_MODEL_CACHE) > 4000:
+            _MODEL_CACHE.clear()
+        _MODEL_CACHE[key] = ctx.model.call({"op": "fock", "what": "dist", "prog": prog, "id": "c1", "input": user_input,
+                                            "backend": b, "eps": f"{eps.numerator}/{eps.denominator}"})
+    return _MODEL_CACHE[key]
+
+
+def corr_problems(ctx: Ctx, b: str, d: dict, prog: list, user_input: list[int], eps: Fraction,
+                  relax: float = 0.0) -> list[str]:
+    """correspondence with the exact model (same truncation rule)"""
+    m = model_dist(ctx, prog, user_input, b, eps)
+    if "error_class" in m:
+        return [f"corr[{b}]: model refuses the input ({m['error_class']}) that the implementation accepts"]
+    md = {tuple(s): Fraction(p) for s, p in m["pdist"]}
+    exact = {tuple(s): Fraction(p) for s, p in m["pdist_exact"]}
+    amb = sum(1 for p in exact.values() if abs(p - eps) <= Fraction(1, 10**12))
+    if amb:
+        ctx.count("ambiguous_at_threshold", amb)
+    for s in set(d) | set(md):
+        pi, pm = d.get(s, 0.0), float(md.get(s, 0))
+        tol = (1e-9 + amb * 1.1e-9 if (sum(s) == 0 or amb) else 1e-9) + relax * max(pi, pm)
+        if abs(pi - pm) > tol:
+            return [f"corr[{b}]: P{list(s)} impl={pi:.12g} model={pm:.12g}"]
+    return []
+
+
 def run_case(ctx: Ctx, case: dict) -> list[str]:
+    if case.get("kind") == "hist":
+        return run_scenario(ctx, case)
     probs: list[str] = []
     pool = fg.build_impl(case["prog"])
     c = pool.get("c1")
@@ -104,26 +189,9 @@ def run_case(ctx: Ctx, case: dict) -> list[str]:
             probs.append(f"oracle: Sampler(backend={b}).probability_distribution raised {exc_class(e)}: {str(e)[:80]}")
             return probs
     full_in = fg.add_heralds(case["input"], c.heralds["input"])
-    injected = sum(full_in)
-    ref = ref_dist(c, full_in)
-    nbasis = max(1, len(list(fg.fock_all(np.array(c.U_full).shape[0], injected))))
+    nbasis = nbasis_of(c, sum(full_in))
     for b, d in dists.items():
-        tot = sum(d.values())
-        if any(p < -1e-15 for p in d.values()):
-            probs.append(f"oracle[{b}]: negative probability")
-        if not (1 - nbasis * float(eps) - 1e-9 <= tot <= 1 + 1e-9):
-            probs.append(f"oracle[{b}]: distribution sums to {tot!r} (truncation allows a deficit of at most {nbasis}*1e-9)")
-        for s, p in d.items():
-            if sum(s) > injected and p > 1e-12:
-                probs.append(f"oracle[{b}]: pattern {s} holds more photons than the {injected} injected")
-            if len(s) != c.n_modes:
-                probs.append(f"oracle[{b}]: pattern {s} is not on the circuit's {c.n_modes} modes")
-        for s in set(d) | set(ref):
-            pi, pr = d.get(s, 0.0), ref.get(s, 0.0)
-            tol = 1e-9 + (nbasis * float(eps) if sum(s) == 0 else 0) + (float(eps) * 1.001 * nbasis if pi == 0 else 0)
-            if abs(pi - pr) > tol:
-                probs.append(f"oracle[{b}]: P{list(s)} = {pi:.9g} but the sum over loss configurations of |amplitude|^2 is {pr:.9g}")
-                break
+        probs += oracle_problems(b, d, c, case["input"], eps)
         if probs:
             return probs
     dp, ds = dists["permanent"], dists["slos"]
@@ -131,33 +199,713 @@ def run_case(ctx: Ctx, case: dict) -> list[str]:
         if abs(dp.get(s, 0) - ds.get(s, 0)) > 1e-9 + nbasis * float(eps):
             probs.append(f"oracle: backends disagree on {list(s)}: permanent={dp.get(s, 0):.9g} slos={ds.get(s, 0):.9g}")
             return probs
-    # correspondence with the exact model (same truncation rule)
     for b, d in dists.items():
-        m = ctx.model.call({"op": "fock", "what": "dist", "prog": case["prog"], "id": "c1", "input": case["input"],
-                            "backend": b, "eps": f"{eps.numerator}/{eps.denominator}"})
-        if "error_class" in m:
-            probs.append(f"corr[{b}]: model refuses the input ({m['error_class']}) that the implementation accepts")
+        probs += corr_problems(ctx, b, d, case["prog"], case["input"], eps)
+        if probs:
             return probs
-        md = {tuple(s): Fraction(p) for s, p in m["pdist"]}
-        exact = {tuple(s): Fraction(p) for s, p in m["pdist_exact"]}
-        amb = sum(1 for p in exact.values() if abs(p - eps) <= Fraction(1, 10**12))
-        if amb:
-            ctx.count("ambiguous_at_threshold", amb)
-        for s in set(d) | set(md):
-            pi, pm = d.get(s, 0.0), float(md.get(s, 0))
-            tol = 1e-9 + amb * 1.1e-9 if (sum(s) == 0 or amb) else 1e-9
-            if abs(pi - pm) > tol:
-                probs.append(f"corr[{b}]: P{list(s)} impl={pi:.12g} model={pm:.12g}")
-                return probs
     return probs
+
+
+# ------------------------------------------------------------------------------------------------
+# shared components and short histories
+#
+# A *scenario* is {"kind": "hist", "circuits": [spec..], "comp": {...}, "steps": [...]}:
+#   spec  = {"prog": [...]}                       circuit c1 of a construction program
+#         | {"ufull_of": j, "model_prog": [...]}  lw.Unitary(circuit_j.U_full): the loss modes of circuit j become
+#                                                 ordinary measured modes (model_prog: the same matrix, exact)
+#   comp  = {"backends": {"B0": "permanent", ..}, "sources": ["S0", ..], "detectors": {"D0": [eff, dark, pnr], ..},
+#            "ps": {"P0": [[modes], [photons]], ..}}   objects created ONCE and handed to several Samplers
+#   steps : ["new", name, ci, input, bref, sref, dref]   create a Sampler (bref: None | "str:<name>" | "B0")
+#           ["read", name]                               probability_distribution -> all oracles
+#           ["circuit", name, ci] ["input", name, s] ["backend", name, bref] ["source", name, sref]
+#           ["detector", name, dref]                     assignments on a living Sampler
+#           ["backend_mutate", "B0", bname]              Backend.backend assigned on the shared object
+#           ["backend_mutate_own", name, bname]          sampler.backend.backend assigned (the Sampler's own Backend
+#                                                        object when it was given as a string / by default)
+#           ["extend", ci, ops]                          the circuit object is extended in place
+#           ["sample", name, how, N, seed, pref]         a sampling call between reads (result not judged here)
+# A step that does not apply (unknown name, input of the wrong length) is skipped, so every sub-list of
+# steps is a valid scenario (needed for shrinking).
+
+
+def _spec_ports(spec: dict, specs: list) -> int:
+    if "prog" in spec:
+        op = spec["prog"][0]
+        return op[2] if op[0] == "new" else len(op[2])
+    return len(spec["model_prog"][0][2])
+
+
+class Scene:
+    """the circuit objects of a scenario and the construction program that describes each of them now"""
+
+    def __init__(self, specs: list) -> None:
+        self.pools: list[dict] = []
+        self.progs: list[list] = []
+        for sp in specs:
+            if "prog" in sp:
+                self.pools.append(fg.build_impl(sp["prog"]))
+                self.progs.append(list(sp["prog"]))
+            else:
+                src = self.pools[sp["ufull_of"]].get("c1")
+                self.pools.append({} if src is None else {"c1": lw.Unitary(np.array(src.U_full))})
+                self.progs.append(list(sp["model_prog"]))
+
+    def circ(self, i: int):
+        return self.pools[i].get("c1") if 0 <= i < len(self.pools) else None
+
+    def extend(self, i: int, ops: list) -> list[str]:
+        out = [cg.apply_op(self.pools[i], op) for op in ops]
+        self.progs[i] = self.progs[i] + list(ops)
+        return out
+
+
+def _dist(obj) -> dict:
+    return {tuple(s.s): float(p) for s, p in obj.probability_distribution.items()}
+
+
+def run_scenario(ctx: Ctx, sc: dict) -> list[str]:
+    eps = get_eps()
+    cap = 6 if ctx.thorough else 5
+    try:
+        scene = Scene(sc["circuits"])
+    except Exception as e:  # noqa: BLE001
+        return [f"oracle: building the circuits of the scenario raised {exc_class(e)}: {str(e)[:80]}"]
+    comp = sc.get("comp", {})
+    backends = {k: emulator.Backend(v) for k, v in comp.get("backends", {}).items()}
+    bnames = dict(comp.get("backends", {}))
+    sources = {k: emulator.Source() for k in comp.get("sources", [])}
+    detectors = {k: emulator.Detector(efficiency=v[0], p_dark=v[1], photon_counting=v[2])
+                 for k, v in comp.get("detectors", {}).items()}
+    pss = {}
+    for k, v in comp.get("ps", {}).items():
+        pss[k] = lw.PostSelection()
+        pss[k].add(tuple(v[0]), tuple(v[1]))
+    S: dict = {}
+
+    def bk(bref):
+        if bref is None:
+            return None
+        return bref[4:] if bref.startswith("str:") else backends[bref]
+
+    def bname(bref) -> str:
+        if bref is None:
+            return "permanent"
+        return bref[4:] if bref.startswith("str:") else bnames[bref]
+
+    for k, st in enumerate(sc["steps"]):
+        op = st[0]
+        if op == "new":
+            _, name, ci, inp, bref, sref, dref = st
+            c = scene.circ(ci)
+            if c is None or len(inp) != c.input_modes:
+                continue
+            try:
+                obj = emulator.Sampler(c, lw.State(inp), source=sources.get(sref), detector=detectors.get(dref),
+                                       backend=bk(bref))
+            except Exception as e:  # noqa: BLE001
+                return [f"oracle: step #{k} {st[:3]}: creating the Sampler raised {exc_class(e)}: {str(e)[:80]}"]
+            S[name] = {"obj": obj, "ci": ci, "input": list(inp), "bref": bref, "relax": 0.0}
+            continue
+        if op == "backend_mutate":
+            if st[1] in backends:
+                backends[st[1]].backend = st[2]
+                bnames[st[1]] = st[2]
+            continue
+        if op == "extend":
+            if scene.circ(st[1]) is not None:
+                scene.extend(st[1], st[2])
+            continue
+        s = S.get(st[1])
+        if s is None:
+            continue
+        obj = s["obj"]
+        c = scene.circ(s["ci"])
+        try:
+            if op == "circuit":
+                if scene.circ(st[2]) is not None:
+                    obj.circuit = scene.circ(st[2])
+                    s["ci"] = st[2]
+            elif op == "input":
+                if len(st[2]) == c.input_modes:
+                    obj.input_state = lw.State(st[2])
+                    s["input"] = list(st[2])
+            elif op == "backend":
+                obj.backend = bk(st[2])
+                s["bref"] = st[2]
+            elif op == "source":
+                obj.source = sources.get(st[2])
+            elif op == "detector":
+                obj.detector = detectors.get(st[2])
+            elif op == "backend_mutate_own":
+                obj.backend.backend = st[2]
+                if s["bref"] is None or s["bref"].startswith("str:"):
+                    s["bref"] = f"str:{st[2]}"  # a private object: nobody else may notice
+                else:
+                    bnames[s["bref"]] = st[2]
+        except Exception as e:  # noqa: BLE001
+            return [f"oracle: step #{k} {st}: the assignment raised {exc_class(e)}: {str(e)[:80]}"]
+        if op == "sample":
+            _, _, how, n, seed, pref = st
+            try:
+                if how == "one":
+                    import random as pyrandom
+
+                    pyrandom.seed(seed)
+                    obj.sample()
+                elif how == "outputs":
+                    obj.sample_N_outputs(n, post_select=pss.get(pref), seed=seed)
+                else:
+                    # (may renormalise the stored values when numpy finds the truncated sum too far from one)
+                    s["relax"] = 1.01 * nbasis_of(c, sum(s["input"]) + fg.herald_photons(c)) * float(eps)
+                    obj.sample_N_inputs(n, post_select=pss.get(pref), seed=seed)
+            except Exception:  # noqa: BLE001  (not an observable of this property; C07/C11 judge sampling calls)
+                ctx.count("hist:sampling_call_raised")
+            continue
+        if op != "read":
+            continue
+        if len(s["input"]) != c.input_modes:
+            ctx.count("hist:read_skipped_input_length")
+            continue
+        if sum(s["input"]) + fg.herald_photons(c) > cap or np.array(c.U_full).shape[0] > 11:
+            ctx.count("hist:read_skipped_too_large")
+            continue
+        b = bname(s["bref"])
+        where = f"step #{k} read {st[1]} (circuit {s['ci']}, input {s['input']}, backend {s['bref']}={b})"
+        try:
+            d = _dist(obj)
+        except Exception as e:  # noqa: BLE001
+            return [f"oracle: {where}: probability_distribution raised {exc_class(e)}: {str(e)[:80]}"]
+        probs = oracle_problems(b, d, c, s["input"], eps, s["relax"])
+        if probs:
+            return [f"{probs[0]}  [{where}]", *probs[1:]]
+        # a fresh Sampler (own Backend / Source / Detector) with the same settings
+        try:
+            fd = _dist(emulator.Sampler(c, lw.State(s["input"]), backend=b))
+        except Exception as e:  # noqa: BLE001
+            return [f"oracle: {where}: a fresh Sampler with the same settings raised {exc_class(e)}: {str(e)[:80]}"]
+        for t in set(d) | set(fd):
+            if abs(d.get(t, 0.0) - fd.get(t, 0.0)) > 1e-9 + s["relax"] * max(d.get(t, 0.0), fd.get(t, 0.0)):
+                return [f"oracle[{b}]: P{list(t)} = {d.get(t, 0.0):.9g} but a fresh Sampler with the same settings gives "
+                        f"{fd.get(t, 0.0):.9g}  [{where}]"]
+        probs = corr_problems(ctx, b, d, scene.progs[s["ci"]], s["input"], eps, s["relax"])
+        if probs:
+            return [f"{probs[0]}  [{where}]"]
+    return []
+
+
+# ---- generation of scenarios
+
+
+def _clone(x):
+    return json.loads(json.dumps(x))
+
+
+def _dims_ok(c, cap: int, user_photons: int = 0) -> bool:
+    return c is not None and np.array(c.U_full).shape[0] <= 9 and fg.herald_photons(c) + user_photons <= cap
+
+
+def rel_ufull(ctx: Ctx, specs: list, j: int) -> dict | None:
+    """the circuit 'Unitary(U_full of circuit j)': same matrix, no loss modes, no heralds"""
+    if "prog" not in specs[j]:
+        return None
+    m = ctx.model.call({"op": "circ", "prog": specs[j]["prog"], "observe": ["c1"]})
+    fin = m["final"].get("c1")
+    if not fin:
+        return None
+    return {"ufull_of": j, "model_prog": [["unitary", "c1", fin["U_full"]]]}
+
+
+def rel_reherald(rng, prog: list) -> list | None:
+    """same calls, other herald photon numbers (U_full and all dimensions stay the same)"""
+    q = _clone(prog)
+    hs = [op for op in q if op[0] == "herald" and isinstance(op[2], int)]
+    if not hs:
+        return None
+    for op in rng.sample(hs, rng.randint(1, len(hs))):
+        op[2] = rng.choice([v for v in (0, 1, 1, 2) if v != op[2]])
+    return q
+
+
+def rel_moved(rng, prog: list) -> list | None:
+    """same calls, one top-level herald declared on another output (or input) mode"""
+    q = _clone(prog)
+    hs = [op for op in q if op[0] == "herald" and op[1] == "c1"]
+    if not hs or q[0][0] != "new":
+        return None
+    op = rng.choice(hs)
+    w = rng.choice([3, 4, 4])
+    op[w] = rng.choice([m for m in range(q[0][2]) if m != op[w]] or [op[w]])
+    if isinstance(op[-1], dict):
+        op[-1].pop("form", None)
+    return q
+
+
+def rel_revalue(rng, prog: list) -> list | None:
+    """same calls on the same modes, other values (reflectivities, phases, non-zero losses)"""
+    from core import CIRCLE, PYTH, frac_str
+
+    inner = [p for p in PYTH if 0 < p[1] < 1]
+    q = _clone(prog)
+    changed = False
+    for op in q:
+        ex = op[-1] if isinstance(op[-1], dict) else {}
+        if op[0] == "bs" and "refl" not in ex and rng.random() < 0.7:
+            c, s = rng.choice(inner)
+            op[4], op[5] = frac_str(c), frac_str(s)
+            changed = True
+        elif op[0] == "ps" and rng.random() < 0.7:
+            g = rng.choice(CIRCLE)
+            op[3] = g.s()
+            changed = True
+        elif op[0] == "loss" and "loss" not in ex and Fraction(op[4]) != 0 and rng.random() < 0.7:
+            a, b = rng.choice(inner)
+            op[3], op[4] = frac_str(a), frac_str(b)
+            changed = True
+    return q if changed else None
+
+
+def gen_extension(ctx: Ctx, rng, scene: Scene, ports: int, ci: int, user_photons: int, cap: int,
+                  kind: str | None = None) -> list | None:
+    """calls that extend circuit ci in place; tried on a scratch copy first"""
+    c = scene.circ(ci)
+    kind = kind or rng.choice(["gate", "gate", "prim", "prim", "herald", "loss"])
+    tag = f"x{len(scene.progs[ci])}"
+    if kind == "gate":
+        # a heralded gate: Circuit.add of a block that carries its own ancilla (the circuit gains a mode and a
+        # herald, its input_modes stay the same)
+        sz = rng.randint(2, 3)
+        if ports < sz - 1:
+            return None
+        room = cap - user_photons - fg.herald_photons(c)
+        ph = rng.choice([0, 1, 1]) if room >= 1 else 0
+        hm = rng.randrange(sz)
+        ho = hm if rng.random() < 0.5 else rng.randrange(sz)
+        ops = [["unitary", tag, cg.mat_json(cg.exact_unitary(rng, sz, depth=rng.randint(2, 5)))],
+               ["herald", tag, ph, hm, ho], ["add", "c1", tag, rng.randint(0, ports - (sz - 1)), rng.random() < 0.5]]
+    elif kind == "herald":
+        room = cap - user_photons - fg.herald_photons(c)
+        ph = rng.choice([0, 1, 1]) if room >= 1 else 0
+        i = rng.randrange(ports)
+        ops = [["herald", "c1", ph, i, i if rng.random() < 0.5 else rng.randrange(ports)]]
+    elif kind == "loss":
+        from core import PYTH
+
+        a, b = rng.choice([p for p in PYTH if 0 < p[1] < 1])
+        ops = [cg.op_loss("c1", rng.randrange(ports), a, b)]
+    else:
+        ops = [cg.rand_prim_op(rng, "c1", ports, p_invalid=0.0, allow_loss=rng.random() < 0.4)
+               for _ in range(rng.randint(1, 2))]
+    # scratch run: accepted by the implementation and still small enough?
+    trial = Scene.__new__(Scene)
+    trial.pools = [{k: v.copy() for k, v in scene.pools[ci].items()}]
+    trial.progs = [[]]
+    try:
+        res = trial.extend(0, _clone(ops))
+    except Exception:  # noqa: BLE001
+        return None
+    if any(r != "ok" for r in res) or not _dims_ok(trial.circ(0), cap):
+        return None
+    ctx.count(f"hist:extend:{kind}")
+    return ops
+
+
+class HistGen:
+    """random / directed scenarios; mirrors the configuration on its own circuit objects to stay valid"""
+
+    def __init__(self, ctx: Ctx, rng, specs: list, cap: int) -> None:
+        self.ctx, self.rng, self.cap = ctx, rng, cap
+        self.specs = specs
+        self.scene = Scene(specs)
+        self.ports = [_spec_ports(sp, specs) for sp in specs]
+        self.steps: list = []
+        self.S: dict = {}
+        self.comp = {"backends": {}, "sources": [], "detectors": {}, "ps": {}}
+
+    def state_for(self, ci: int, like: list | None = None) -> list[int]:
+        c = self.scene.circ(ci)
+        room = max(0, self.cap - fg.herald_photons(c))
+        if like is not None and len(like) == c.input_modes and sum(like) <= room:
+            return list(like)
+        nph = min(room, self.rng.choice([0, 1, 2, 2, 3, 3]))
+        return fg.rand_state(self.rng, c.input_modes, nph)
+
+    def new(self, name: str, ci: int, inp: list | None, bref, sref=None, dref=None) -> None:
+        inp = self.state_for(ci, inp)
+        self.steps.append(["new", name, ci, inp, bref, sref, dref])
+        self.S[name] = {"ci": ci, "input": inp, "bref": bref}
+
+    def read(self, name: str) -> None:
+        self.steps.append(["read", name])
+
+    def fix_input(self, name: str, force: bool = False) -> None:
+        s = self.S[name]
+        c = self.scene.circ(s["ci"])
+        if force or len(s["input"]) != c.input_modes or sum(s["input"]) + fg.herald_photons(c) > self.cap:
+            inp = self.state_for(s["ci"], None if force else s["input"])
+            self.steps.append(["input", name, inp])
+            s["input"] = inp
+
+    def set_circuit(self, name: str, ci: int) -> None:
+        self.steps.append(["circuit", name, ci])
+        self.S[name]["ci"] = ci
+        self.fix_input(name)
+
+    def extend(self, ci: int, kind: str | None = None) -> bool:
+        users = [s for s in self.S.values() if s["ci"] == ci]
+        ops = gen_extension(self.ctx, self.rng, self.scene, self.ports[ci], ci, max([sum(s["input"]) for s in users] or [0]),
+                            self.cap, kind)
+        if ops is None:
+            return False
+        self.steps.append(["extend", ci, ops])
+        self.scene.extend(ci, _clone(ops))
+        for n, s in self.S.items():
+            if s["ci"] == ci:
+                self.fix_input(n)
+        return True
+
+    def scenario(self) -> dict:
+        return {"kind": "hist", "circuits": self.specs, "comp": self.comp, "steps": self.steps}
+
+
+def corpus_bases() -> list:
+    F = Fraction
+    from core import GQ
+
+    i = GQ(0, 1)
+    w = GQ(F(3, 5), F(4, 5))
+    return [
+        # one loss element between two beam splitters (one loss mode)
+        [["new", "c1", 2], cg.op_ps("c1", 0, w), cg.op_bs("c1", 0, 1, F(3, 5), F(4, 5)), cg.op_loss("c1", 0, F(4, 5), F(3, 5)),
+         cg.op_ps("c1", 1, i), cg.op_bs("c1", 0, 1, F(5, 13), F(12, 13), "H")],
+        # lossy beam splitter (two loss modes) and a top-level herald whose output sits on another mode
+        [["new", "c1", 3], cg.op_bs("c1", 0, 1, F(4, 5), F(3, 5)), cg.op_bs("c1", 1, 2, F(8, 17), F(15, 17), "Rx", (F(12, 13), F(5, 13))),
+         ["herald", "c1", 1, 2, 0], cg.op_bs("c1", 0, 2, F(3, 5), F(4, 5), "H")],
+        # a heralded gate added as a group, then loss on a user mode, idle herald with no photon
+        [["new", "c1", 3], ["unitary", "g1", [["3/5,0", "0,4/5"], ["0,4/5", "3/5,0"]]], ["herald", "g1", 1, 1, 1],
+         ["add", "c1", "g1", 1, True], cg.op_loss("c1", 1, F(3, 5), F(4, 5)), cg.op_bs("c1", 0, 1, F(5, 13), F(12, 13)),
+         ["herald", "c1", 0, 2, 2]],
+        # lossless, two top-level heralds
+        [["new", "c1", 4], cg.op_bs("c1", 0, 1, F(3, 5), F(4, 5)), cg.op_bs("c1", 2, 3, F(4, 5), F(3, 5), "H"),
+         cg.op_bs("c1", 1, 2, F(8, 17), F(15, 17)), ["herald", "c1", 1, 3, 3], ["herald", "c1", 0, 0, 1],
+         cg.op_ps("c1", 1, w)],
+    ]
+
+
+RELATIONS = ["ufull", "reherald", "moved", "revalue", "same_calls", "same_object"]
+
+
+def related_spec(ctx: Ctx, rng, specs: list, j: int, rel: str, cap: int) -> dict | int | None:
+    """a circuit related to circuit j (a new spec, or j itself for 'same_object')"""
+    if rel == "same_object":
+        return j
+    if rel == "ufull":
+        return rel_ufull(ctx, specs, j)
+    if "prog" not in specs[j]:
+        return None
+    prog = specs[j]["prog"]
+    q = {"reherald": rel_reherald, "moved": rel_moved, "revalue": rel_revalue,
+         "same_calls": lambda _r, p: _clone(p)}[rel](rng, prog)
+    if q is None:
+        return None
+    a, b = fg.build_impl(prog).get("c1"), fg.build_impl(q).get("c1")
+    if b is None or a is None or not _dims_ok(b, cap):
+        return None
+    if b.input_modes != a.input_modes or np.array(a.U_full).shape != np.array(b.U_full).shape or (
+            len(a.heralds["input"]) != len(b.heralds["input"])):
+        return None
+    return {"prog": q}
+
+
+def pair_scenarios(ctx: Ctx, rng, base: list, base_input: list | None, cap: int, rels: list, names=("permanent", "slos"),
+                   sharings=("obj", "str"), orders=(0, 1)) -> list:
+    """two (three) Samplers on related circuits of equal dimensions that share their components, both orders"""
+    out = []
+    for rel in rels:
+        specs = [{"prog": base}]
+        r = related_spec(ctx, rng, specs, 0, rel, cap)
+        if r is None:
+            ctx.count(f"hist:relation_not_applicable:{rel}")
+            continue
+        ib = 0 if isinstance(r, int) else 1
+        if ib:
+            specs.append(r)
+        for bn in names:
+            for sharing in sharings:
+                for order in orders:
+                    g = HistGen(ctx, rng, _clone(specs), cap)
+                    ia = g.state_for(0, base_input)
+                    if rel == "ufull":
+                        a = g.scene.circ(0)
+                        k = np.array(a.U_full).shape[0] - a.n_modes
+                        inb = fg.add_heralds(ia, a.heralds["input"]) + [0] * k  # the same photons on the same columns
+                    else:
+                        inb = ia if rng.random() < 0.7 else None
+                    if sharing == "obj":
+                        g.comp = {"backends": {"B0": bn}, "sources": ["S0"], "detectors": {"D0": [1, 0, True]}, "ps": {}}
+                        refs = ("B0", "S0", "D0")
+                    else:
+                        refs = (f"str:{bn}", None, None)
+                    first, second = ((0, ia), (ib, inb)) if order == 0 else ((ib, inb), (0, ia))
+                    g.new("s1", first[0], first[1], *refs)
+                    g.read("s1")
+                    g.new("s2", second[0], second[1], *refs)
+                    g.read("s2")
+                    g.read("s1")
+                    g.new("s3", first[0], first[1], *refs)
+                    g.read("s3")
+                    ctx.count(f"hist:pair:{rel}:{sharing}")
+                    out.append(g.scenario())
+    return out
+
+
+def single_history(ctx: Ctx, rng, base: list, base_input: list | None, cap: int, bn: str, directed: bool) -> dict:
+    """one Sampler driven through in-place extensions, herald changes, input and backend switches"""
+    other = "slos" if bn == "permanent" else "permanent"
+    specs = [{"prog": base}]
+    for rel in ("reherald", "revalue", "moved"):
+        r = related_spec(ctx, rng, specs, 0, rel, cap)
+        if isinstance(r, dict):
+            specs.append(r)
+    g = HistGen(ctx, rng, specs, cap)
+    g.comp = {"backends": {"B0": bn, "B1": other}, "sources": ["S0"], "detectors": {"D0": [1, 0, True], "D1": [0.9, 0, False]},
+              "ps": {"P0": [[0], [0]], "P1": [[0], [1]]}}
+    g.new("s1", 0, base_input, rng.choice(["B0", f"str:{bn}", "B0"]), rng.choice(["S0", None]), rng.choice(["D0", None]))
+    g.read("s1")
+
+    def act(kind: str) -> None:
+        s = g.S["s1"]
+        if kind.startswith("extend"):
+            if not g.extend(s["ci"], kind[7:] or None):
+                return
+        elif kind == "backend_str":
+            cur = "B0" if s["bref"] is None else s["bref"]
+            now = cur[4:] if cur.startswith("str:") else g.comp_now[cur]
+            g.steps.append(["backend", "s1", f"str:{'slos' if now == 'permanent' else 'permanent'}"])
+            s["bref"] = g.steps[-1][2]
+        elif kind == "backend_obj":
+            g.steps.append(["backend", "s1", rng.choice(["B0", "B1"])])
+            s["bref"] = g.steps[-1][2]
+        elif kind == "backend_mutate":
+            b = rng.choice(["B0", "B1"])
+            g.comp_now[b] = "slos" if g.comp_now[b] == "permanent" else "permanent"
+            g.steps.append(["backend_mutate", b, g.comp_now[b]])
+        elif kind == "backend_mutate_own":
+            cur = s["bref"]
+            if cur is None or cur.startswith("str:"):
+                now = "permanent" if cur is None else cur[4:]
+                new = "slos" if now == "permanent" else "permanent"
+                s["bref"] = f"str:{new}"
+            else:
+                new = g.comp_now[cur] = "slos" if g.comp_now[cur] == "permanent" else "permanent"
+            g.steps.append(["backend_mutate_own", "s1", new])
+        elif kind == "circuit":
+            g.set_circuit("s1", rng.choice([i for i in range(len(specs)) if i != s["ci"]] or [0]))
+        elif kind == "input":
+            g.fix_input("s1", force=True)
+        elif kind == "source":
+            g.steps.append(["source", "s1", rng.choice(["S0", None])])
+        elif kind == "detector":
+            g.steps.append(["detector", "s1", rng.choice(["D0", "D1", None])])
+        elif kind == "sample":
+            g.steps.append(["sample", "s1", rng.choice(["one", "outputs", "inputs"]), rng.choice([5, 20]), rng.randrange(1000),
+                            rng.choice(["P0", "P1", None])])
+        ctx.count(f"hist:single:{kind}")
+        g.read("s1")
+
+    g.comp_now = dict(g.comp["backends"])
+    if directed:
+        plan = ["extend:gate", "backend_str", "backend_str", "circuit", "backend_obj", "extend:prim", "input", "backend_mutate",
+                "extend:herald", "sample", "circuit", "backend_mutate_own", "extend:gate", "backend_mutate", "extend:loss"]
+    else:
+        plan = [rng.choice(["extend:gate", "extend:gate", "extend:prim", "extend:herald", "extend:loss", "backend_str",
+                            "backend_obj", "backend_mutate", "backend_mutate_own", "circuit", "circuit", "input", "source",
+                            "detector", "sample"])
+                for _ in range(rng.randint(3, 7))]
+    for kind in plan:
+        act(kind)
+    del g.comp_now
+    return g.scenario()
+
+
+def shared_history(ctx: Ctx, rng, base: list, base_input: list | None, cap: int) -> dict | None:
+    """several Samplers that live at the same time, share Backend / Source / Detector objects and circuit objects, and
+    are reconfigured and read in interleaved order"""
+    specs = [{"prog": base}]
+    for rel in rng.sample(RELATIONS[:5], rng.randint(1, 3)):
+        r = related_spec(ctx, rng, specs, 0, rel, cap)
+        if isinstance(r, dict):
+            specs.append(r)
+            ctx.count(f"hist:shared:relation:{rel}")
+    g = HistGen(ctx, rng, specs, cap)
+    b0 = rng.choice(["permanent", "slos"])
+    now = {"B0": b0, "B1": rng.choice(["permanent", "slos"])}
+    g.comp = {"backends": dict(now), "sources": ["S0"], "detectors": {"D0": [1, 0, True], "D1": [0.8, 0, False]},
+              "ps": {"P0": [[0], [1]]}}
+    brefs = ["B0", "B0", "B0", "B1", f"str:{b0}", None]
+    k = 0
+
+    def add_sampler() -> str:
+        nonlocal k
+        k += 1
+        name = f"s{k}"
+        ci = rng.randrange(len(specs))
+        like = next((s["input"] for s in g.S.values()), base_input)
+        if "ufull_of" in specs[ci] and g.S:
+            # the photons of an existing Sampler of the source circuit, on the same columns of the same matrix
+            srcs = [s for s in g.S.values() if s["ci"] == specs[ci]["ufull_of"]]
+            a = g.scene.circ(specs[ci]["ufull_of"])
+            if srcs and len(srcs[0]["input"]) == a.input_modes:
+                like = fg.add_heralds(srcs[0]["input"], a.heralds["input"]) + [0] * (np.array(a.U_full).shape[0] - a.n_modes)
+        g.new(name, ci, like, rng.choice(brefs), rng.choice(["S0", "S0", None]), rng.choice(["D0", "D1", None]))
+        g.read(name)
+        return name
+
+    add_sampler()
+    for _ in range(rng.randint(3, 8)):
+        r = rng.random()
+        name = rng.choice(list(g.S))
+        s = g.S[name]
+        if r < 0.3 and len(g.S) < 4:
+            add_sampler()
+            ctx.count("hist:shared:new_sampler")
+        elif r < 0.42:
+            g.set_circuit(name, rng.randrange(len(specs)))
+            g.read(name)
+            ctx.count("hist:shared:circuit")
+        elif r < 0.52:
+            if g.extend(s["ci"]):
+                for n2 in [n for n, t in g.S.items() if t["ci"] == s["ci"]]:
+                    g.read(n2)
+        elif r < 0.6:
+            g.fix_input(name, force=True)
+            g.read(name)
+            ctx.count("hist:shared:input")
+        elif r < 0.7:
+            g.steps.append(["backend", name, rng.choice(brefs + ["str:slos", "str:permanent"])])
+            s["bref"] = g.steps[-1][2]
+            g.read(name)
+            ctx.count("hist:shared:backend")
+        elif r < 0.78:
+            b = rng.choice(["B0", "B1"])
+            now[b] = "slos" if now[b] == "permanent" else "permanent"
+            g.steps.append(["backend_mutate", b, now[b]])
+            for n2 in [n for n, t in g.S.items() if t["bref"] == b] or [name]:
+                g.read(n2)
+            ctx.count("hist:shared:backend_mutate")
+        elif r < 0.83:
+            # the Backend object that this Sampler holds is switched through the Sampler: every Sampler that was
+            # handed the same object follows, Samplers that were given a string (their own object) must not
+            cur = s["bref"]
+            if cur is None or cur.startswith("str:"):
+                new = "slos" if (cur or "str:permanent")[4:] == "permanent" else "permanent"
+                s["bref"] = f"str:{new}"
+            else:
+                new = now[cur] = "slos" if now[cur] == "permanent" else "permanent"
+            g.steps.append(["backend_mutate_own", name, new])
+            for n2 in list(g.S):
+                g.read(n2)
+            ctx.count("hist:shared:backend_mutate_own")
+        elif r < 0.9:
+            g.steps.append(["sample", name, rng.choice(["one", "outputs", "inputs"]), rng.choice([5, 20]), rng.randrange(1000),
+                            rng.choice(["P0", None])])
+            g.read(rng.choice(list(g.S)))
+            ctx.count("hist:shared:sample")
+        else:
+            g.read(name)
+    return g.scenario()
+
+
+def hist_base(ctx: Ctx, rng, cap: int):
+    """a base circuit for scenarios: from the tree generator, preferring lossy and heralded ones"""
+    best = None
+    for _ in range(6):
+        case = gen_case(ctx, rng)
+        if case is None:
+            continue
+        c = fg.build_impl(case["prog"]).get("c1")
+        if c is None or np.array(c.U_full).shape[0] > 8 or fg.herald_photons(c) + sum(case["input"]) > cap - 1:
+            continue
+        lossy = any(fg.is_lossy(op) for op in case["prog"])
+        her = any(op[0] == "herald" for op in case["prog"])
+        best = case
+        if lossy and (her or rng.random() < 0.5):
+            break
+    return best
+
+
+def report(ctx: Ctx, case: dict, probs: list[str]) -> None:
+    """shrink a failing scenario over its steps and report it"""
+    ctx.count("cases_with_problems")
+    try:
+        small = ddmin(case["steps"], lambda sub: bool(run_scenario(ctx, {**case, "steps": sub})), max_tests=120)
+    except Exception:  # noqa: BLE001
+        small = case["steps"]
+    scase = {**case, "steps": small}
+    sprobs = run_scenario(ctx, scase) or probs
+    oracle = [p for p in sprobs if p.startswith("oracle")]
+    shape = "+".join(st[0] for st in small)[:80]
+    if oracle:
+        ctx.violation(oracle[0], {"case": scase, "problems": sprobs}, sig={"kind": "history", "shape": shape})
+    else:
+        ctx.disagreement(sprobs[0], {"case": scase, "problems": sprobs})
+
+
+def run_hist(ctx: Ctx, rng) -> None:
+    import random as pyrandom
+
+    cap = 5 if ctx.thorough else 4
+    scs: list = []
+    # 1. directed corpus (the same on every seed)
+    crng = pyrandom.Random("c04-hist-corpus")
+    for base in corpus_bases():
+        scs += [("corpus:pair", s) for s in pair_scenarios(ctx, crng, base, None, cap, RELATIONS)]
+        for bn in ("permanent", "slos"):
+            scs.append(("corpus:single", single_history(ctx, crng, base, None, cap, bn, True)))
+    # 2. randomised
+    n_rand = ctx.n(36, 700)
+    for i in range(n_rand):
+        case = hist_base(ctx, rng, cap)
+        if case is None:
+            continue
+        r = i % 3
+        if r == 0:
+            rel = rng.sample(RELATIONS, 2)
+            scs += [("random:pair", s) for s in pair_scenarios(ctx, rng, case["prog"], case["input"], cap, rel,
+                                                               names=(rng.choice(["permanent", "slos"]),),
+                                                               sharings=("obj",) if rng.random() < 0.75 else ("str",))]
+        elif r == 1:
+            scs.append(("random:single", single_history(ctx, rng, case["prog"], case["input"], cap,
+                                                        rng.choice(["permanent", "slos"]), False)))
+        else:
+            scs.append(("random:shared", shared_history(ctx, rng, case["prog"], case["input"], cap)))
+    reported = 0
+    for tag, sc in scs:
+        if ctx.out_of_time() or reported >= 4:
+            break
+        probs = run_scenario(ctx, sc)
+        reads = [k for k, st in enumerate(sc["steps"]) if st[0] == "read"]
+        ctx.count(f"hist:{tag}")
+        ctx.count("hist:reads", len(reads))
+        ctx.case(json.dumps(sc), len(reads) >= 2, sample=None)
+        if probs:
+            reported += 1
+            report(ctx, sc, probs)
 
 
 def run(ctx: Ctx) -> None:
     ctx.rule = ("circuits from the tree generator (0-4 loss elements anywhere, heralds), inputs with 0-4 photons incl. "
-                "vacuum and bunched, both backends; non-trivial = >= 2 photons injected and the circuit has loss or a "
-                "herald; distinct = distinct (program, input)")
+                "vacuum and bunched, both backends, on fresh objects; plus scenarios in which Backend / Source / Detector "
+                "objects and circuit objects are shared by several Samplers on related circuits of equal dimensions "
+                "(Unitary of the U_full, other herald photons / modes, other values, same calls) in both orders, and short "
+                "histories on living Samplers (in-place extension, herald change, input / backend re-assignment), every "
+                "read compared with the exact model, the loss-configuration sum and a fresh Sampler; non-trivial = >= 2 "
+                "photons injected and the circuit has loss or a herald, resp. >= 2 reads; distinct = distinct (program, "
+                "input) resp. scenario")
     N = ctx.n(160, 4000)
     rng = ctx.rng
+    import random as pyrandom
+
+    run_hist(ctx, pyrandom.Random(f"C04-hist-{ctx.seed}"))
     done = 0
     while done < N and not ctx.out_of_time():
         case = gen_case(ctx, rng)
